@@ -8,6 +8,7 @@ import (
 	"fmt"
 	"os"
 	"strings"
+	"time"
 
 	"github.com/cockroachdb/errors"
 	"github.com/cockroachdb/errors/errorspb"
@@ -21,6 +22,7 @@ import (
 	grpcstatus "google.golang.org/grpc/status"
 
 	"verifharness/internal/cat"
+	"verifharness/internal/conc"
 	"verifharness/internal/faults"
 	"verifharness/internal/grpcsvc"
 	"verifharness/internal/mig"
@@ -59,6 +61,9 @@ type Env struct {
 	LastHop *wire.HopInfo
 	// Result of the last StackCall.
 	LastStack *p1.Result
+	// Concurrent observers (C18).
+	Conc     *conc.Run
+	LastConc *conc.Result
 	// Result of the last Grpc call.
 	LastGrpc *grpcsvc.Result
 	// Processes of the migration family.
@@ -70,6 +75,35 @@ type Env struct {
 // NewEnv creates an environment with n empty slots.
 func NewEnv(n int) *Env {
 	return &Env{Slots: make([]error, n+1), HopN: make([]int, n+1), World: mig.NewWorld(n)}
+}
+
+// ExecConc performs a step of the concurrency family: st.N is the goroutine
+// (CStorm: the number of goroutines), st.S[0] the operation, st.Src[0] the
+// shared slot, st.Src[1] (optional) a second value used as reference.
+func (env *Env) ExecConc(st *Step) (panicked string) {
+	defer func() {
+		if r := recover(); r != nil {
+			panicked = fmt.Sprint(r)
+		}
+	}()
+	if env.Conc == nil {
+		env.Conc = conc.NewRun()
+	}
+	e := env.src(st, 0)
+	other := env.src(st, 1)
+	if other == nil {
+		other = goerrors.New("Zq77x")
+	}
+	switch st.Op {
+	case "CBegin":
+		env.Conc.Begin(st.N, st.S[0], e, other)
+		env.LastConc = nil
+	case "CEnd":
+		env.LastConc = env.Conc.End(st.N)
+	case "CStorm":
+		env.LastConc = conc.Storm(st.N, 150*time.Millisecond, e, other)
+	}
+	return ""
 }
 
 // ExecMig performs a step of the migration family.
